@@ -38,8 +38,19 @@ structure Item (α : Type) where
 structure Spec (α : Type) where
   name : α
   classNames : ClassNames α
+  /-- statements of the source as interpolated for a class name that occurs nowhere (`%(class_name)s` absent: for
+      every class) -/
   items : List (Item α)
+  /-- second pass — `get_interpolated_source({'class_name': cls})`: the classes for which the interpolated source
+      yields OTHER statements than `items` (a source that mentions `%(class_name)s`), with those statements -/
+  perClass : List (α × List (Item α))
   deriving DecidableEq, Repr
+
+/-- the statements `spec.get_interpolated_source({'class_name': cls})` pastes into class `cls` -/
+def Spec.itemsFor {α : Type} [DecidableEq α] (s : Spec α) (cls : α) : List (Item α) :=
+  match s.perClass.find? (fun p => decide (p.1 = cls)) with
+  | some p => p.2
+  | none => s.items
 
 /-- `MethodSpec.match_name` -/
 def matchName {α : Type} [DecidableEq α] (cn : ClassNames α) (cls : α) : Bool :=
@@ -53,7 +64,7 @@ def insertionRule {α : Type} [DecidableEq α] (spec : Spec α) (cls : α) : Boo
 
 /-- the user part of class `cls` that `generateUserMethods` writes -/
 def regenerated {α : Type} [DecidableEq α] (specs : List (Spec α)) (cls : α) : List (Item α) :=
-  (specs.filter (insertionRule · cls)).flatMap (·.items)
+  (specs.filter (insertionRule · cls)).flatMap (·.itemsFor cls)
 
 /-- the class names a spec mentions -/
 def ClassNames.named {α : Type} : ClassNames α → List α
@@ -91,6 +102,24 @@ structure Versions where
   helperFile : String
   deriving Repr
 
+/-! ## Second pass: every occurrence of a schema file name / version in the package's code -/
+
+/-- what an occurrence is used for -/
+inductive OccRole where
+  /-- selects / names the schema the bindings are (re)generated from or that written files point to -/
+  | schema
+  /-- `config.py: schema_name`: the schema `generateds_config.py` derives the NameTable (member naming) from -/
+  | nameTable
+  deriving DecidableEq, Repr
+
+structure Occurrence where
+  file : String
+  what : String
+  /-- the schema file name the occurrence denotes (templates filled with `current_neuroml_version`) -/
+  schemaFile : String
+  role : OccRole
+  deriving DecidableEq, Repr
+
 structure Tables where
   specs : List (Spec Nat)
   /-- binding class ↦ (name, digest) of its user statements, in source order -/
@@ -110,21 +139,36 @@ structure Tables where
   /-- imports of the `--custom-imports-template` file (pasted into the header on regeneration) -/
   templateImports : List Nat
   versions : Versions
+  /-- second pass: every occurrence of a schema file name / version in the package's code -/
+  occurrences : List Occurrence
+  /-- second pass: complexType ↦ its extension base (generateDS name mapping applied), from the XSD -/
+  xsdBases : List (Nat × Option Nat)
+  /-- second pass: binding class ↦ its Python base classes, from nml.py -/
+  classBases : List (Nat × List Nat)
+  /-- interned name of `GeneratedsSuper` (base class of a binding class whose complexType extends nothing) -/
+  rootBase : Nat
 
 /-! ## Abstract sources (for the lifting lemma): `σ` is the type of normalised class-body statements -/
 
 structure SpecS (α σ : Type) where
   name : α
   classNames : ClassNames α
-  body : List σ
+  /-- the interpolated source as class-body statements, per class name -/
+  body : α → List σ
 
-/-- what the translator records of a spec -/
-def SpecS.abstract {α σ : Type} (key : σ → Item α) (s : SpecS α σ) : Spec α :=
-  ⟨s.name, s.classNames, s.body.map key⟩
+/-- what the translator records of a spec: same `class_names`, and for EVERY class the (name, digest) list of the
+    source interpolated for that class is what the table row yields for it -/
+def Abstracts {α σ : Type} [DecidableEq α] (key : σ → Item α) (s : SpecS α σ) (t : Spec α) : Prop :=
+  t.classNames = s.classNames ∧ ∀ cls, (s.body cls).map key = t.itemsFor cls
+
+/-- the table is the translator's view of the spec sources, spec by spec, in order -/
+inductive AllAbstract {α σ : Type} [DecidableEq α] (key : σ → Item α) : List (SpecS α σ) → List (Spec α) → Prop
+  | nil : AllAbstract key [] []
+  | cons {s t ss ts} : Abstracts key s t → AllAbstract key ss ts → AllAbstract key (s :: ss) (t :: ts)
 
 /-- the user statements generateDS writes into class `cls` -/
 def regenS {α σ : Type} [DecidableEq α] (specs : List (SpecS α σ)) (cls : α) : List σ :=
-  (specs.filter (fun s => matchName s.classNames cls)).flatMap (·.body)
+  (specs.filter (fun s => matchName s.classNames cls)).flatMap (·.body cls)
 
 /-- a class body: the schema-driven part followed by the user statements -/
 structure ClassBody (σ : Type) where
@@ -135,5 +179,55 @@ structure ClassBody (σ : Type) where
     replaces the user part by what the specs yield for this class -/
 def regenClass {α σ : Type} [DecidableEq α] (specs : List (SpecS α σ)) (cls : α) (b : ClassBody σ) : ClassBody σ :=
   ⟨b.generated, regenS specs cls⟩
+
+/-! ## Second pass: whole files (the regeneration is actually re-run; `translators/regen_run.py`) -/
+
+/-- one top-level class of a bindings file: name, base classes, every class-body statement in order -/
+structure ClassRow where
+  name : Nat
+  bases : List Nat
+  members : List (Item Nat)
+  deriving DecidableEq, Repr
+
+/-- one bindings file as the translator reads it -/
+structure FileTable where
+  classes : List ClassRow
+  /-- module-level statements other than imports, in order; a class is the item `⟨"class <name>", 0⟩` -/
+  moduleItems : List (Item Nat)
+  /-- module-level imports, one alias each, sorted (normalisation N2) -/
+  imports : List Nat
+  deriving DecidableEq, Repr
+
+/-- the statements after the user-method boundary (`_buildChildren`): what `generateUserMethods` wrote -/
+def userPart (boundary : Nat) (ms : List (Item Nat)) : List (Item Nat) :=
+  (ms.dropWhile (fun m => !(Nat.beq m.name boundary))).drop 1
+
+/-- the schema-driven statements: everything up to and including the boundary -/
+def generatedPart (boundary : Nat) (ms : List (Item Nat)) : List (Item Nat) :=
+  ms.takeWhile (fun m => !(Nat.beq m.name boundary)) ++ (ms.dropWhile (fun m => !(Nat.beq m.name boundary))).take 1
+
+def userRows (boundary : Nat) (cs : List ClassRow) : List (Nat × List (Item Nat)) :=
+  cs.map (fun c => (c.name, userPart boundary c.members))
+
+/-- what the re-run produced besides the final file -/
+structure RegenMeta where
+  /-- interned name of `_buildChildren` -/
+  boundary : Nat
+  /-- generateDS version in the header of the shipped file / installed version that was re-run -/
+  headerVersion : String
+  installedVersion : String
+  /-- N1: number of `<Class>.superclass.validate_(self, gds_collector, recursive)` statements removed from the
+      regenerated side, and number of regenerated classes with a non-`None` `superclass` -/
+  driftRemoved : Nat
+  withBase : Nat
+  /-- (class, user statements) of the RAW generateDS output (before the sed steps), after both sed steps -/
+  rawUser : List (Nat × List (Item Nat))
+  sedUser : List (Nat × List (Item Nat))
+  deriving Repr
+
+/-- the Python base-class list generateDS writes for a complexType -/
+def expectedBases (rootBase : Nat) : Option Nat → List Nat
+  | some b => [b]
+  | none => [rootBase]
 
 end NmlVerif.Regen
